@@ -47,7 +47,7 @@ fn det_strat(_: &Ctx) -> BoxedStrategy<DetCase> {
         proptest::collection::vec(det_decision(), 1..48),
         prop_oneof![2 => Just(None), 1 => Just(Some(0.001)), 1 => Just(Some(0.1)), 1 => Just(Some(0.))],
     )
-        .prop_map(|((steps, inner), kt_start, kt_ratio, max_step, seed, n, decisions, kt_finish)| DetCase { cfg: OptCfg { steps, inner, kt_start, kt_finish, kt_ratio, max_step, convergence: None, seed }, n, decisions })
+        .prop_map(|((steps, inner), kt_start, kt_ratio, max_step, seed, n, decisions, kt_finish)| DetCase { cfg: OptCfg { steps, inner, kt_start, kt_finish, kt_ratio, max_step, convergence: if seed % 5 == 0 { Some(1e-9) } else { None }, seed }, n, decisions })
         .boxed()
 }
 
